@@ -123,6 +123,12 @@ func c10Events(thorough bool) []Ev {
 	dEv("fee->main,main->burn", []dtypes.SubDistributor{
 		{Name: "a", Sources: []*dtypes.Account{{Id: authtypes.FeeCollectorName, Type: dtypes.ModuleAccount}}, Destinations: dtypes.Destinations{PrimaryShare: dAcc(aMAIN), BurnShare: sdk.ZeroDec(), Shares: []*dtypes.DestinationShare{{Name: "s", Share: sdk.MustNewDecFromStr("0.5"), Destination: dAcc(aI1)}}}},
 		{Name: "b", Sources: []*dtypes.Account{{Id: "i1", Type: dtypes.InternalAccount}, mainSrc}, Destinations: dtypes.Destinations{PrimaryShare: dAcc(aVRC), BurnShare: sdk.MustNewDecFromStr("0.99")}}})
+	// an internal account named like a module account: the two share an id, not a type
+	gebInternal := dtypes.Account{Id: dtypes.GreenEnergyBoosterCollector, Type: dtypes.InternalAccount}
+	dEv("internal-and-module-account-share-an-id", []dtypes.SubDistributor{
+		{Name: "a", Sources: []*dtypes.Account{{Id: authtypes.FeeCollectorName, Type: dtypes.ModuleAccount}, mainSrc}, Destinations: dtypes.Destinations{PrimaryShare: gebInternal, BurnShare: sdk.ZeroDec(),
+			Shares: []*dtypes.DestinationShare{{Name: "s", Share: sdk.MustNewDecFromStr("0.333333333333333333"), Destination: dAcc(aMgeb)}}}},
+		{Name: "b", Sources: []*dtypes.Account{&gebInternal}, Destinations: dtypes.Destinations{PrimaryShare: u2, BurnShare: sdk.ZeroDec()}}})
 	dEv("main-only", []dtypes.SubDistributor{{Name: "only", Sources: []*dtypes.Account{mainSrc}, Destinations: dtypes.Destinations{PrimaryShare: u2, BurnShare: sdk.ZeroDec()}}})
 	evs = append(evs,
 		Ev{Name: "gov:distr.sub(main->burn-only)", Gov: true, Build: func(v View) (sdk.Msg, string) {
